@@ -438,6 +438,54 @@ impl Params {
             v[n - 1] = p - 1;
             out.push(("nonbit-pair(2,-1)".into(), v));
         }
+        // Two non-bits whose range-check terms CANCEL when they get the same coefficient of the random linear
+        // combination: x = 2/5, y = -1/5 give x(x-1) + y(y-1) = -6/25 + 6/25 = 0. With pairwise distinct
+        // coefficients (powers of the joint randomness) this is rejected like any other invalid input; a
+        // coefficient schedule that repeats (every 16th / 32nd offset of a chunk, the same offset of two chunks,
+        // the first and last element ...) lets it through for EVERY joint randomness. SumVec has no other
+        // check, so the pair is placed on top of a valid bit encoding at many position distances.
+        if self.kind == Kind::SumVec && n >= 2 {
+            let inv5 = {
+                // 5^(p-2) mod p
+                let (mut b, mut e, mut r) = (5u128 % p, p - 2, 1u128);
+                while e > 0 {
+                    if e & 1 == 1 {
+                        r = mulmod(r, b, p);
+                    }
+                    b = mulmod(b, b, p);
+                    e >>= 1;
+                }
+                r
+            };
+            let x = mulmod(2, inv5, p);
+            let y = submod(0, inv5, p);
+            let c = self.chunk.max(1);
+            let mut pairs: Vec<(usize, usize)> = vec![(0, n - 1), (0, 1)];
+            for d in [1usize, 2, 4, 8, 16, 32, 64, c, c / 2] {
+                for base in [0usize, 1, 15, 16, 17, 18, 31, 32, 33, c, c + 16, c + 18, rng.usize_below(n)] {
+                    if d > 0 && base + d < n {
+                        pairs.push((base, base + d));
+                    }
+                }
+            }
+            pairs.sort();
+            pairs.dedup();
+            // keep the family small: all pairs for small inputs; otherwise the block-period pairs (distance 16
+            // or 32, both offsets past the first block) plus a sample of the rest
+            if pairs.len() > 24 {
+                let (mut keep, mut rest): (Vec<_>, Vec<_>) = pairs.into_iter().partition(|(i, j)| (j - i == 16 || j - i == 32) && *i >= 16);
+                rng.shuffle(&mut rest);
+                rest.truncate(24usize.saturating_sub(keep.len()).max(8));
+                keep.extend(rest);
+                pairs = keep;
+            }
+            for (i, j) in pairs {
+                let mut v = valid.clone();
+                v[i] = x;
+                v[j] = y;
+                out.push((format!("cancel-pair(2/5,-1/5)@{i}-vs-{j}"), v));
+            }
+        }
         match self.kind {
             Kind::Histogram => {
                 out.push(("weight0".into(), vec![0; n]));
